@@ -323,7 +323,7 @@ func c08r3(w *World, rr *RuleRun) {
 	}
 	passive := w.P.Field("", "ServerConfig", "Passive")
 	onQuery := w.P.Field("", "ServerConfig", "OnQuery")
-	validToken := w.P.Func("(*Server).validToken")
+	validToken := w.tokenPredicate()
 	counted := func(ins ssa.Instruction) bool { return callInstrCommon(ins) != nil && h.isSendCall(w, ins) }
 	// no counted call hidden in a closure of the handler that runs asynchronously more than once:
 	for _, a := range h.fn.AnonFuncs {
